@@ -40,6 +40,27 @@ func (w *World) initModels() {
 		return Val{Typ: rt}
 	}
 	w.modelTargets["net/http.(Header).Set"] = hdrTargets
+	// Add appends to the values of the canonical key: the key is present
+	// afterwards; the value list is a slice of at least one element whose last
+	// element is v (earlier elements unspecified).
+	w.models["net/http.(Header).Add"] = func(f *Frame, args []Val, rt types.Type, st *State, pos token.Pos) Val {
+		c := f.c
+		m, k, v := args[0], args[1], args[2]
+		mt := m.Typ.Underlying().(*types.Map)
+		f.oblige("nil", f.srcKey(pos, "Header.Add"), not(eq(m.T, "0")), pos, "assignment to entry in nil map")
+		key := canon(c, k.T)
+		r := c.newRef(st, "hdrval")
+		n := c.fresh("hdrlen")
+		c.declConst(n, c.idxSort())
+		c.assume(f.curGuard, and(c.ile(c.idxLit(1), q(n)), c.ile(q(n), maxLenStr)))
+		h, srt := c.memHeap(types.Typ[types.String])
+		arr := c.fresh("hdrarr")
+		c.declConst(arr, "(Array "+c.idxSort()+" Str)")
+		c.heapSet(st, h, "(store "+c.heapGet(st, h, srt)+" "+r+" (store "+q(arr)+" (- "+q(n)+" 1) "+v.T+"))")
+		f.mapStore(st, mt, m.T, key, c.mkSlice(r, c.idxLit(0), q(n), q(n)), pos)
+		return Val{Typ: rt}
+	}
+	w.modelTargets["net/http.(Header).Add"] = hdrTargets
 	w.models["net/http.(Header).Get"] = func(f *Frame, args []Val, rt types.Type, st *State, pos token.Pos) Val {
 		c := f.c
 		t := c.name("hdrget", c.hdrGetTerm(st, args[0], args[1].T), "Str")
